@@ -28,6 +28,8 @@ pub mod c18;
 pub mod c05;
 pub mod lockmon;
 pub mod c11;
+pub mod c13;
+pub mod c17;
 
 use report::{Args, Report};
 
@@ -44,6 +46,8 @@ pub fn dispatch(cmd: &str, args: &Args, rep: &mut Report) -> bool {
         "C18" => c18::run(args, rep),
         "C05" => c05::run(args, rep),
         "C11" => c11::run(args, rep),
+        "C13" => c13::run(args, rep),
+        "C17" => c17::run(args, rep),
         "try" => trycmd(args),
         "probe" => probecmd(args),
         _ => return false,
